@@ -153,8 +153,28 @@ impl V {
     }
 }
 
+/// Message prefix of the panics raised by the harness's own callbacks (weigher, predicate,
+/// `Clone` of a value): the only panics a caller may see besides the documented ones.
+pub const CB_MARK: &str = "harness-callback-panic";
+/// A value the by-value weigher refuses to weigh (it panics).
+pub const W_WEIGH_PANICS: u32 = 4_000_000_001;
+/// A value whose `Clone` panics (the by-value weigher gives it 1).
+pub const W_CLONE_PANICS: u32 = 4_000_000_002;
+
+/// The by-value weigher of the search engines.
+pub fn weigh_v(v: &V) -> u32 {
+    match v.w {
+        W_WEIGH_PANICS => panic!("{CB_MARK}: weigher"),
+        W_CLONE_PANICS => 1,
+        w => w,
+    }
+}
+
 impl Clone for V {
     fn clone(&self) -> Self {
+        if self.w == W_CLONE_PANICS {
+            panic!("{CB_MARK}: clone");
+        }
         V::new(self.id, self.w)
     }
 }
